@@ -72,8 +72,13 @@ PROVED = {
          "partitions x capacities of small inputs and pause scripts computed from the document layout; pauses inside a buffered master are known finding D18.", ""),
  "C17": ("Theorem C17_buffer_bounded: with a size limit m the model's buffer length never exceeds max(initial capacity, 16, m), for every input, "
          "configuration, source script (pauses and I/O errors included) and call sequence; a header declaring a larger known size is never accepted "
-         "and header validation requests at most 16 bytes of buffer. Real heap usage (old+new buffer during growth, payload copies, queue) is an "
-         "implementation-level oracle measured by the harness' counting allocator: partial by nature.",
+         "and header validation requests at most 16 bytes of buffer (the size error comes before any allocation or read for the payload). "
+         "C17_no_overflow (Proofs/NoOverflow.v): for byte inputs shorter than 2^62 bytes every sum the code computes on usize while parsing stays "
+         "below 2^63, in every reachable state and for every configuration — current offset, header length + declared size, offset + header + size "
+         "(is_invalid_tag_size), every open master's data_start + size (also after try_recover enlarged it: size + skipped distance), the vint "
+         "accumulator and marker shifts — each theorem names the Rust expression it bounds; buffer indices are bounded by the capacity, itself "
+         "<= max(cap0, 16, 2^56) without a limit (C17_buffer_bounded_bytes). Declared sizes never panic (C05_no_panic). Real heap usage (old+new "
+         "buffer during growth, payload copies, queue) is an implementation-level oracle measured by the harness' counting allocator: partial by nature.",
          "The allocator and Vec/Box growth are not modelled; the measured bound 3*max(m, cap, 16)+4*len+64KiB is an oracle, not a theorem. "),
  "C13": ("Theorems: C13_tolerated_kinds_impossible — for every configuration, input and next()/try_recover() sequence, no reported error belongs to a "
          "tolerated class and, with unknown ids not tolerated, no successful item is or contains a raw tag (abstract reader; buffered machine for every "
